@@ -192,9 +192,18 @@ pub trait DateRoll {
         }
         match days.cmp(&0_i8) {
             Ordering::Equal => self.roll_forward_bus_day(date),
-            Ordering::Less => self
-                .add_bus_days(&self.roll_backward_bus_day(date), days + 1, settlement)
-                .unwrap(),
+            Ordering::Less => {
+                // count without settlement, then settle in the (backward) direction of `days`:
+                // `add_bus_days(.., 0, true)` would otherwise move forward when `days` is -1.
+                let new_date = self
+                    .add_bus_days(&self.roll_backward_bus_day(date), days + 1, false)
+                    .unwrap();
+                if settlement {
+                    self.roll_backward_settled_bus_day(&new_date)
+                } else {
+                    new_date
+                }
+            }
             Ordering::Greater => self
                 .add_bus_days(&self.roll_forward_bus_day(date), days - 1, settlement)
                 .unwrap(),
